@@ -118,11 +118,15 @@ def inspect_phc(
 
     salt = groups["salt"]
     hash = groups["hash"]
-    params = {
-        key: value for key, value in (p.split("=") for p in groups["params"].split(","))
-    }
+    pairs = [p.split("=") for p in groups["params"].split(",")]
+    params = dict(pairs)
 
     definition_info = _parse_phc_def(chosen_definition)
+    # the parameters of the definition appear once each and in the defined order
+    # (a repeated or re-ordered parameter is not another spelling of the same hash)
+    known = [param.param.name for param in definition_info.parameters.values()]
+    if [key for key, _ in pairs if key in known] != known:
+        return None
     try:
         parsed_params = {
             name: param.type(params[param.param.name])
